@@ -186,6 +186,9 @@ class MindsDBParser(Parser):
     def create_chat_bot(self, p):
         params = p.kw_parameter_list
 
+        if 'database' not in params:
+            raise ParsingException("CREATE CHATBOT requires the parameter 'database'")
+
         database = Identifier(params.pop('database'))
         model_param = params.pop('model', None)
         agent_param = params.pop('agent', None)
